@@ -113,7 +113,7 @@ def run(res, prop, tier, seed, t_end, observers, scope=None):
     scs = list(all_scenarios())
     rng = random.Random(seed * 13 + 5)
     if tier == 'quick':
-        scs = rng.sample(scs, min(len(scs), 260))
+        scs = rng.sample(scs, min(len(scs), 5000))
     for name, args in scs:
         if time.time() > t_end:
             res.notes.append('scenario enumeration: time budget reached')
